@@ -5,6 +5,7 @@ import (
 	"go/token"
 	"go/types"
 	"sort"
+	"strings"
 
 	"golang.org/x/tools/go/ssa"
 )
@@ -20,8 +21,18 @@ type Atom struct {
 func (a Atom) String() string { return a.s }
 
 var (
-	termTrue  = func() *Term { t := mk(TConst, "", types.Typ[types.Bool], nil); t.C = constant.MakeBool(true); t.s = "true"; return t }()
-	termFalse = func() *Term { t := mk(TConst, "", types.Typ[types.Bool], nil); t.C = constant.MakeBool(false); t.s = "false"; return t }()
+	termTrue = func() *Term {
+		t := mk(TConst, "", types.Typ[types.Bool], nil)
+		t.C = constant.MakeBool(true)
+		t.s = "true"
+		return t
+	}()
+	termFalse = func() *Term {
+		t := mk(TConst, "", types.Typ[types.Bool], nil)
+		t.C = constant.MakeBool(false)
+		t.s = "false"
+		return t
+	}()
 )
 
 func mkAtom(op string, l, r *Term) Atom {
@@ -273,6 +284,11 @@ func (fi *FnInfo) errIsNilF(v ssa.Value, facts []Atom, depth int) tri {
 		return no
 	case *ssa.MakeInterface:
 		return no // a concrete value boxed into error: non-nil interface
+	case *ssa.UnOp:
+		// package-level sentinel errors (var ErrX = errors.New(...)) are never nil
+		if g, ok := x.X.(*ssa.Global); ok && x.Op == token.MUL && strings.HasPrefix(g.Name(), "Err") {
+			return no
+		}
 	case *ssa.Phi:
 		res := tri(-1)
 		for _, e := range x.Edges {
